@@ -80,6 +80,9 @@ func newWSConnection(conn *websocket.Conn, proto protocol.Protocol, opts wsConne
 // and, if this was the last subscription, triggers the idle-close flow.
 func (c *wsConnection) subscribe(ctx context.Context, id string, req *common.Request, handler common.Handler) (func(), error) {
 	if err := ctx.Err(); err != nil {
+		// The connection may have been dialled for this subscriber alone: run the idle check,
+		// or a connection that never gets a subscription is never closed.
+		c.removeSub(id)
 		return nil, err
 	}
 
